@@ -234,6 +234,15 @@ fn tune(prop: &str, c: &mut Cfg, p: &mut GenProfile, r: &mut Rng) {
             p.w_appack = 30;
             c.f_dup = true;
         }
+        "C05" => {
+            // boundary announcements that only a peer can make
+            if r.chance(1, 4) {
+                c.c_tam = Some(0);
+            }
+            if r.chance(1, 4) {
+                c.s_tam = Some(0);
+            }
+        }
         "C08" => {
             p.w_ids = 20;
             p.w_sub = 14;
@@ -293,8 +302,13 @@ pub fn generate(prop: &str, rng: &mut Rng, tier: Tier, run: u64) -> (Case, Outco
     let mut s = Solo::new(cfg.clone());
     let mut ops = vec![];
     let mut states = vec![];
+    // C05: adversarial peer traffic at PRNG points of an otherwise regular session
+    let adversary = prop == "C05" && run % 3 != 0;
     for _ in 0..len {
-        let op = solo::gen_op(&s, rng, &prof);
+        let mut op = solo::gen_op(&s, rng, &prof);
+        if adversary && s.w.m.st != St::Disc && !s.w.want_close && rng.chance(1, 6) {
+            op = Op::PeerRaw { bytes: solo::gen_adversarial(&s, rng) };
+        }
         ops.push(op.clone());
         s.exec(&op);
         states.push(solo_state_hash(&s, op_kind(&op)));
